@@ -29,6 +29,17 @@ var c13Digits = []string{"0", "1", "2", "3", "4", "5", "6", "7", "8", "9"}
 
 func c13Render(t string, m map[string]interface{}) (string, error) { c13LastCmd = t; return t, nil }
 
+// How long the interpreter lets a command that ignores the interrupt live after its deadline: the
+// library's default handler escalates to a kill after 2 s; an executor that installs the default
+// handler with another grace period changes "terminated shortly afterwards".
+var c13Grace time.Duration
+
+func c13DefaultExecHandler(killTimeout time.Duration) interp.ExecHandlerFunc {
+	c13Grace = killTimeout
+	return nil
+}
+func c13ExecHandlerOpt(f interp.ExecHandlerFunc) interp.RunnerOption { return nil }
+
 // c13InterpRun: the command starts now, would take a symbolic duration, and is cut
 // short with the context's deadline error if that would pass its deadline.
 func c13InterpRun(r *interp.Runner, ctx context.Context, node syntax.Node) error {
@@ -64,6 +75,9 @@ func VerifC13(withTimeout, nv, withCond int) {
 	rt.SymbolicTime()
 	rt.Redirect("(*mvdan.cc/sh/v3/interp.Runner).Run", c13InterpRun)
 	rt.Redirect("github.com/taskctl/taskctl/pkg/utils.RenderString", c13Render)
+	rt.Redirect("mvdan.cc/sh/v3/interp.DefaultExecHandler", c13DefaultExecHandler)
+	rt.Redirect("mvdan.cc/sh/v3/interp.ExecHandler", c13ExecHandlerOpt)
+	c13Grace = 2 * time.Second
 	c13Calls = nil
 	c13LastFinish = rt.Now()
 	def := &taskDefinition{Name: "tk", Command: []string{"c0", "c1"}, Before: []string{"b0"}, After: []string{"a0"}}
@@ -86,6 +100,7 @@ func VerifC13(withTimeout, nv, withCond int) {
 	rt.Assert(err == nil, "C13.task-built")
 	r, _ := runner.NewTaskRunner()
 	runErr := r.Run(t)
+	rt.Assert(c13Grace <= 2*time.Second, "C13.an-overrunning-command-is-killed-shortly-after-its-deadline (grace period handed to the interpreter)")
 
 	// reference: b0, then per variation c0 c1, then a0
 	var order []string
